@@ -331,8 +331,70 @@ def check_C16(K, prop, tier, seed, t0):
     return 1 if unknown else 0
 
 
+def check_C08(K, prop, tier, seed, t0):
+    q = tier == "quick"
+    d = K.leg_dir(prop, "classes")
+    shapes = os.path.join(d, "shapes.ndjson"); back = os.path.join(d, "back.ndjson"); facts = os.path.join(d, "facts.json")
+    with open(os.path.join(d, "k.cfg"), "w") as f:
+        f.write("INIT KInit\nNEXT KNext\nINVARIANT KReport\nCHECK_DEADLOCK FALSE\n")
+    env = {"VERIF_OUT": shapes, "VERIF_BACK": back, "VERIF_FACTS": facts, "VERIF_STRIDE": str(97 if q else 3), "VERIF_OFFSET": str(seed % 97)}
+    def tlc(phase):
+        pr = subprocess.run(K.tlc_cmd(1, os.path.join(d, "md-" + phase), "k.cfg", "CharClass.tla"), cwd=d,
+                            env=K.tlc_env(dict(env, VERIF_PHASE=phase)), stdout=subprocess.PIPE, stderr=subprocess.STDOUT, text=True)
+        lines = pr.stdout.splitlines()
+        gen, dist, errs = K.parse_tlc(lines)
+        if pr.returncode != 0 or errs or gen is None:
+            K.log("\n".join(lines[-30:])); raise K.ToolError(f"CharClass {phase}: TLC failed")
+        return lines, gen, dist
+    tlc("emit")
+    p = subprocess.run([K.HARNESS, "classes", shapes, back, facts, "3" if q else "6", str(seed), "16"], env=K.base_env(),
+                       stdout=subprocess.PIPE, stderr=subprocess.PIPE, text=True)
+    if p.returncode != 0:
+        K.log(p.stderr[-2000:]); raise K.ToolError("harness classes failed")
+    info = json.loads(p.stdout.strip().splitlines()[-1])
+    lines, gen, dist = tlc("check")
+    bad = [int(l.split(",")[1].strip(" >")) for l in lines if l.startswith('<<"CLASS-DIFF"')]
+    factsbad = [l for l in lines if l.startswith('<<"CLASS-FACTS"')]
+    with open(back) as f:
+        backs = [json.loads(l) for l in f]
+    K.log(f"[classes] {info['shapes']} shapes, {info['measured']} instantiations ({info['distinct_classes']} distinct classes), "
+          f"{len(bad)} differences, facts {'FAIL' if factsbad else 'ok'}")
+    vdir = os.path.join(d, "viol"); os.makedirs(vdir, exist_ok=True)
+    files = []
+    for k in bad:
+        b = backs[k - 1]
+        wrong = [a for a in b["atoms"] if not a["constant"]] or b["atoms"]
+        v = dict(kind="class", configurations=[b["class"]], inputs=[b["items"]], calls_specified=[], measured=b,
+                 difference=("class does not build: " + b.get("error", "")) if not b["built"] else
+                            "membership of the class is not the boolean combination of its items on some atom (representative code points in measured.atoms[].rep)")
+        path = os.path.join(vdir, f"v{len(files)}.json")
+        with open(path, "w") as f:
+            json.dump(v, f, ensure_ascii=False, indent=1)
+        files.append(path)
+    if factsbad:
+        with open(facts) as f:
+            fx = json.load(f)
+        path = os.path.join(vdir, "facts.json")
+        with open(path, "w") as f:
+            json.dump(dict(kind="class", configurations=["base facts"], inputs=[], calls_specified=[], measured=fx,
+                           difference="a base fact of C08 fails (literal, dot, ASCII restriction of \\d \\s \\w, complements, range bounds)"), f, ensure_ascii=False, indent=1)
+        files.append(path)
+    unknown = K.report_violations(prop, files, len(files))
+    cov = dict(evaluations=info["measured"] * 1112064, distinct_nontrivial=info["distinct_classes"],
+               rule="evaluations = class instantiations x 1,112,064 scalars (every scalar is classified, exhaustively, for every instantiation); "
+                    "distinct_nontrivial = distinct concrete class texts measured; shapes: all expressions of depth <= 1 over 5 base symbols, "
+                    "8 hand-picked deeper ones and a stride through depth 2; 3 (quick) / 6 (thorough) random instantiations each from a table of 51 items",
+               samples=[{"class": b["class"], "atoms": len(b["atoms"])} for b in backs[:3] + backs[-3:]],
+               exhaustive=True, shapes=info["shapes"], states=dist, transitions=gen)
+    K.write_evidence(prop, tier, seed, "exploration", cov,
+                     ["an item 'used alone' is measured through the public API on a one-pattern scanner over a string holding every scalar once",
+                      "[.] inside brackets is the dot set (documented behaviour, README relies on it); TLC, regex-syntax"], time.time() - t0, len(files))
+    return 1 if unknown else 0
+
+
 CHECKS = {
     "C01": check_C01,
+    "C08": check_C08,
     "C16": check_C16,
     "C18": check_C18,
     "C15": check_C15,
